@@ -33,6 +33,8 @@ func c12Ops() []Op {
 		Key: keyOf(nil), DbKey: sdb.Key{{V: nil}}, DbKeyTo: sdb.Key{{V: "v"}}, PKKey: keyOf(int64(1))})...)
 	ops = append(ops, StdOps(OpSpec{Table: "t3", Cols: []string{"k", "v", "w"}, Index: "sqlite_autoindex_t3_1",
 		Key: keyOf("beta"), DbKey: sdb.Key{{V: "beta"}}, DbKeyTo: sdb.Key{{V: "k"}}, PKKey: keyOf("gamma"), Rowid: 8})...)
+	ops = append(ops, StdOps(OpSpec{Table: "lk", Cols: []string{"k", "v"}, Index: "lk_k",
+		Key: keyOf(c12LongKey(7)), DbKey: sdb.Key{{V: c12LongKey(7)}}, DbKeyTo: sdb.Key{{V: c12LongKey(11)}}, PKKey: keyOf(int64(3)), Rowid: 3})...)
 	ops = append(ops,
 		highOp("IndexedSelect(t1,t1_part)", false, func(e *Env, c *collector) error {
 			return e.H.IndexedSelect("t1", "t1_part", func(r sqlittle.Row) { c.add(CopyRow(r)) }, "a", "c")
@@ -47,6 +49,20 @@ func c12Ops() []Op {
 	return ops
 }
 
+// c12LongKey: keys so long that every index entry, the ones stored in interior pages included, spills to overflow pages
+func c12LongKey(i int) string { return fmt.Sprintf("key%02d-", i) + strings.Repeat("x", 600) }
+
+// T6: a table with an index over long keys (multi-level: interior cells with overflow chains of their own)
+func T6(n int) dbgen.Table {
+	t := dbgen.Table{Name: "lk", SQL: "CREATE TABLE lk (k TEXT, v)", NCols: 2, ColNames: []string{"k", "v"}, RowidAlias: -1,
+		Defaults: []interface{}{nil, nil}, ColColl: []string{"", ""}}
+	for i := 0; i < n; i++ {
+		t.Rows = append(t.Rows, dbgen.Row{Rowid: int64(i + 1), Vals: []interface{}{c12LongKey(i), int64(i * 3)}})
+	}
+	t.Indexes = []dbgen.Index{{Name: "lk_k", SQL: "CREATE INDEX lk_k ON lk (k)", Cols: []dbgen.IdxCol{{Col: 0}}}}
+	return t
+}
+
 func c12Images(r *ev.Run) []c12Image {
 	var out []c12Image
 	type cfg struct {
@@ -57,7 +73,7 @@ func c12Images(r *ev.Run) []c12Image {
 		cfgs = append(cfgs, cfg{90, 60, 50, 1300})
 	}
 	for _, c := range cfgs {
-		spec := &dbgen.Spec{PageSize: 512, Tables: []dbgen.Table{T1(rowidSet(c.n1, 2), c.big), T2(c.n2, c.big), T3(c.n3)}}
+		spec := &dbgen.Spec{PageSize: 512, Tables: []dbgen.Table{T1(rowidSet(c.n1, 2), c.big), T2(c.n2, c.big), T3(c.n3), T6(14)}}
 		img, err := dbgen.Build(spec)
 		if err != nil {
 			r.Harness("dbgen: %v", err)
@@ -133,7 +149,7 @@ func isPrefix(got, full [][]interface{}) bool {
 }
 
 func runC12(r *ev.Run) {
-	r.Rule = "every public read operation (low level scans/searches, the six high level selects, the rowid lookups also of a row that spills to overflow pages, schema calls, the driver query) on T1+T2+T3 images (multi-level trees, overflow chains, nested index->table lookups) on a cold and on a warm handle x a fault at the k-th page read for every k=1..reads, as I/O error and as short read; RLock failure; a second fault at every later read wherever the operation kept reading after the first; oracle: error non-nil and delivered rows are a prefix of the fault-free rows. non-trivial = runs in which the fault was reached"
+	r.Rule = "every public read operation (low level scans/searches, the six high level selects, the rowid lookups also of a row that spills to overflow pages, schema calls, the driver query) on T1+T2+T3+T6 images (multi-level trees, overflow chains also behind the entries stored in interior index pages, nested index->table lookups) on a cold and on a warm handle x a fault at the k-th page read for every k=1..reads, as I/O error and as short read; RLock failure; a second fault at every later read wherever the operation kept reading after the first; oracle: error non-nil and delivered rows are a prefix of the fault-free rows. non-trivial = runs in which the fault was reached"
 	images := c12Images(r)
 	type job struct {
 		im   *c12Image
